@@ -390,7 +390,18 @@ ben("c03-bstr-upper", ["C03"], (C, "        return self.value.hex()\n\n\nclass S
 brk("c03-format-table-asym", ["C03"], (IO, '        "yaml": "from_yaml_file",\n', ''))
 brk("c03-hierarchy-wrong-key", ["C03"], (IO, '                data["SUIT_Envelope_Tagged"][suit_integrated_dependencies.name][key] = SuitEnvelopeTagged.from_cbor(\n                    binascii.a2b_hex(data["SUIT_Envelope_Tagged"][suit_integrated_dependencies.name][key])\n                ).to_obj()', '                data["SUIT_Envelope_Tagged"][suit_integrated_dependencies.name][key] = SuitEnvelopeTagged.from_cbor(\n                    binascii.a2b_hex(list(data["SUIT_Envelope_Tagged"][suit_integrated_dependencies.name].values())[0])\n                ).to_obj()'))
 brk("c03-yaml-anchor-after", ["C03"], (IO, '                data = {**{"SUIT_Dependent_Manifests": {}}, **data}', '                data = {**data, **{"SUIT_Dependent_Manifests": {}}}'))
-brk("c03-always-expand", ["C03"], (IO, "json.dump(cls.parse_json_submanifests(data) if parse_hierarchy is True else data, fh, sort_keys=False)", "json.dump(cls.parse_json_submanifests(data) if parse_hierarchy else data, fh, sort_keys=False)"))
+brk("c03-expand-inverted", ["C03"], (IO, "json.dump(cls.parse_json_submanifests(data) if parse_hierarchy is True else data, fh, sort_keys=False)", "json.dump(cls.parse_json_submanifests(data) if parse_hierarchy is False else data, fh, sort_keys=False)"))
+brk("c03-expand-always", ["C03"], (IO, "yaml.dump(cls.parse_yaml_submanifests(data) if parse_hierarchy is True else data, fh, sort_keys=False)", "yaml.dump(cls.parse_yaml_submanifests(data), fh, sort_keys=False)"))
+brk("c03-anchor-after", ["C03"], (IO, 'data = {**{"SUIT_Dependent_Manifests": {}}, **data}', 'data = {**data, **{"SUIT_Dependent_Manifests": {}}}'))
+brk("c03-yaml-copy-not-alias", ["C03"], (IO, """                data["SUIT_Envelope_Tagged"][suit_integrated_dependencies.name][key] = data["SUIT_Dependent_Manifests"][
+                    f"{key}_envelope"
+                ]""", """                data["SUIT_Envelope_Tagged"][suit_integrated_dependencies.name][key] = data["SUIT_Dependent_Manifests"][
+                    f"{key}"
+                ]"""))
+brk("c03-dispatch-other-table", ["C03"], (IO, "return getattr(self, self.SERIALIZERS[output_type.lower()])", "return getattr(self, self.SERIALIZERS[output_type])"))
+ben("c03-dispatch-temp", ["C03"], (IO, "return getattr(self, self.SERIALIZERS[output_type.lower()])", "name = self.SERIALIZERS[output_type.lower()]\n            return getattr(self, name)"))
+ben("c03-from-suit-temp", ["C03"], (IO, "            suit = SuitEnvelopeTagged.from_cbor(data)\n            return suit.to_obj()\n\n    @classmethod\n    def from_suit_file_simplified", "            model = SuitEnvelopeTagged.from_cbor(data)\n            description = model.to_obj()\n            return description\n\n    @classmethod\n    def from_suit_file_simplified"))
+ben("c03-expand-on-truthiness", ["C03"], (IO, "json.dump(cls.parse_json_submanifests(data) if parse_hierarchy is True else data, fh, sort_keys=False)", "json.dump(cls.parse_json_submanifests(data) if parse_hierarchy else data, fh, sort_keys=False)"))
 brk("c03-keyid-union-order", ["C03", "C02"], (SEC, "        children=[\n            cbstr(SuitInt),\n            SuitBstr,\n        ]", "        children=[\n            SuitBstr,\n            cbstr(SuitInt),\n        ]"))
 brk("c03-uuid-size-17", ["C03", "C02"], (M, "        if len(cbstr) != 16:\n            raise ValueError(f\"Unable to construct UUID from: {cbstr.hex()}\")", "        if len(cbstr) != 17:\n            raise ValueError(f\"Unable to construct UUID from: {cbstr.hex()}\")"))
 brk("c03-new-parse-only-check", ["C03"], (C, "    @classmethod\n    def from_cbor(cls, cbstr: bytes) -> SuitHex:\n        \"\"\"Restore SUIT representation from passed CBOR.\"\"\"\n        return cls(cbstr)", "    @classmethod\n    def from_cbor(cls, cbstr: bytes) -> SuitHex:\n        \"\"\"Restore SUIT representation from passed CBOR.\"\"\"\n        if len(cbstr) > 65535:\n            raise ValueError(\"too long\")\n        return cls(cbstr)"))
